@@ -5,7 +5,8 @@ package c20
 // Explicit-state model checking of the REAL git-lfs binary: multi-source BFS over operation sequences
 // (install / update / uninstall with their flags, plus commands that install hooks implicitly) starting from an
 // enumerated set of pre-existing hook files (content classes; file types and link states; permission states) x
-// hooks-directory types x filter.lfs.* values x scopes x core.hooksPath; states are real
+// hooks-directory types x filter.lfs.* values x scopes x where such a value lives relative to the scope's file (include
+// files, includeIf, the XDG global file, other scopes: c20_where_verif_test.go) x core.hooksPath; states are real
 // directory trees, deduplicated by a canonical key (hook bytes+modes, config values per scope); the ownership
 // oracle is evaluated on every transition, and on every install transition two composite probes are run
 // (install;install and install;install;uninstall).
@@ -276,10 +277,14 @@ func (h hookEnt) String() string {
 }
 
 type state struct {
-	Hooks   map[string]hookEnt
-	DirLink map[string]string              // hooks directory that is a symlink -> root-relative directory it resolves to
-	Cfg     map[string]map[string][]string // scope -> key -> values in file order
-	Key     uint64
+	Hooks     map[string]hookEnt
+	DirLink   map[string]string              // hooks directory that is a symlink -> root-relative directory it resolves to
+	Cfg       map[string]map[string][]string // scope -> key -> values in file order (the scope's own file only)
+	Inc       map[string]incEnt              // configuration files that are (or may be) included from a scope's file: *.inc
+	Eff       map[string]map[string][]effVal // scope -> filter.lfs key -> values git sees in that scope's view (include.* followed), in order
+	IncOf     map[string]map[string]bool     // scope -> include files reached from the scope's file
+	EffUnsure map[string]bool                // scope -> the view could not be modelled (directive outside the model): E1/C3 demand nothing there
+	Key       uint64
 }
 
 func sha(s string) string {
@@ -348,6 +353,7 @@ type envT struct {
 	cfgCache sync.Map
 	pool     chan *gitx.World
 	thorough bool
+	xcheck   string // scope whose modelled view is compared with the real git after every transition ("" = none)
 	unpriv   bool   // the scenario being run executes git-lfs as unprivUID on worlds owned by unprivUID
 	dropOK   bool   // the harness runs as root and can drop privileges for a child process
 	dropWhy  string // why not
@@ -407,9 +413,17 @@ func (e *envT) restoreWorld(s snap, root string) {
 	}
 }
 
-func (e *envT) parseCfg(data string) map[string][]string {
+type cfgKV struct{ K, V string }
+
+type cfgParsed struct {
+	List []cfgKV             // entries in file order (include.path / includeif.*.path appear as ordinary entries)
+	Map  map[string][]string // key -> values in file order
+}
+
+// parseCfgFull parses one configuration file WITHOUT following include.* (git config --no-includes --file).
+func (e *envT) parseCfgFull(data string) *cfgParsed {
 	if v, ok := e.cfgCache.Load(data); ok {
-		return v.(map[string][]string)
+		return v.(*cfgParsed)
 	}
 	f, err := os.CreateTemp(e.tmp, "cfg")
 	if err != nil {
@@ -418,13 +432,14 @@ func (e *envT) parseCfg(data string) map[string][]string {
 	f.WriteString(data)
 	f.Close()
 	defer os.Remove(f.Name())
-	res := e.tool.RunIn(e.tmp, nil, nil, "git", "config", "--file", f.Name(), "--list", "-z")
-	m := map[string][]string{}
+	res := e.tool.RunIn(e.tmp, nil, nil, "git", "config", "--no-includes", "--file", f.Name(), "--list", "-z")
+	cp := &cfgParsed{Map: map[string][]string{}}
 	if !res.OK() {
 		// an unparsable file is itself an observation: keep it distinguishable
-		m["<<unparsable>>"] = []string{sha(data)}
-		e.cfgCache.Store(data, m)
-		return m
+		cp.Map["<<unparsable>>"] = []string{sha(data)}
+		cp.List = []cfgKV{{"<<unparsable>>", sha(data)}}
+		e.cfgCache.Store(data, cp)
+		return cp
 	}
 	for _, item := range strings.Split(res.Out, "\x00") {
 		if item == "" {
@@ -434,14 +449,18 @@ func (e *envT) parseCfg(data string) map[string][]string {
 		if i := strings.IndexByte(item, '\n'); i >= 0 {
 			k, v = item[:i], item[i+1:]
 		}
-		m[k] = append(m[k], v)
+		cp.Map[k] = append(cp.Map[k], v)
+		cp.List = append(cp.List, cfgKV{k, v})
 	}
-	e.cfgCache.Store(data, m)
-	return m
+	e.cfgCache.Store(data, cp)
+	return cp
 }
 
+func (e *envT) parseCfg(data string) map[string][]string { return e.parseCfgFull(data).Map }
+
 func (e *envT) digest(s snap) *state {
-	st := &state{Hooks: map[string]hookEnt{}, Cfg: map[string]map[string][]string{}, DirLink: map[string]string{}}
+	st := &state{Hooks: map[string]hookEnt{}, Cfg: map[string]map[string][]string{}, DirLink: map[string]string{},
+		Inc: map[string]incEnt{}, Eff: map[string]map[string][]effVal{}, IncOf: map[string]map[string]bool{}, EffUnsure: map[string]bool{}}
 	for _, d := range hookDirs {
 		// a hooks directory that is itself a symbolic link: the link is the user's, never to be replaced
 		if en, ok := s[d]; ok && en.Kind == 'l' {
@@ -522,6 +541,7 @@ func (e *envT) digest(s snap) *state {
 		}
 		st.Cfg[sf[0]] = m
 	}
+	e.digestIncludes(s, st)
 	// canonical key
 	var parts []string
 	hk := make([]string, 0, len(st.Hooks))
@@ -546,6 +566,10 @@ func (e *envT) digest(s snap) *state {
 		for _, k := range ks {
 			parts = append(parts, "C|"+sf[0]+"|"+k+"|"+strings.Join(m[k], "\x01"))
 		}
+	}
+	for _, p := range sortedIncKeys(st.Inc) {
+		ie := st.Inc[p]
+		parts = append(parts, fmt.Sprintf("I|%s|%c|%o|%s", p, ie.Kind, ie.Mode, ie.Sha))
 	}
 	st.Key = vx.Hash64(parts...)
 	return st
@@ -580,7 +604,26 @@ func (st *state) describe() map[string]interface{} {
 			}
 		}
 	}
-	return map[string]interface{}{"hooks": h, "config": c}
+	d := map[string]interface{}{"hooks": h, "config": c}
+	if len(st.Inc) > 0 {
+		inc := map[string]interface{}{}
+		for p, ie := range st.Inc {
+			inc[p] = ie.describe()
+		}
+		eff := map[string]interface{}{}
+		for sc, m := range st.Eff {
+			for k, vs := range m {
+				var l []string
+				for _, v := range vs {
+					l = append(l, fmt.Sprintf("%q from %s", v.V, v.Origin))
+				}
+				eff[sc+":filter.lfs."+k] = l
+			}
+		}
+		d["included_files"] = inc
+		d["values_in_scope_view_with_includes"] = eff
+	}
+	return d
 }
 
 // ---------------------------------------------------------------------------------------------------------
@@ -874,7 +917,9 @@ func evaluate(pre, post *state, o opDef, res gitx.Res, so *stepOut, where string
 					if !eqStrs(pv, qv) {
 						cls := "custom"
 						fp := fmt.Sprintf("C20:config-replaced:%s:%s", opKind(o), map[bool]string{true: "target-scope", false: "other-scope"}[isTarget])
-						if len(pv) > 1 && !isCustom(k, pv[len(pv)-1]) {
+						// the key is multi-valued in the scope's view (several values in the file, or one in the file and a later
+						// one in an included file) and the value git uses (the last) is an LFS one: finding-2.md
+						if ev := pre.effVals(sc, k); len(ev) > 1 && !isCustom(k, ev[len(ev)-1].V) {
 							cls = "multivalued-shadowed-custom"
 							fp = "C20:config-replaced:multivalued-shadowed-custom"
 						}
@@ -895,12 +940,81 @@ func evaluate(pre, post *state, o opDef, res gitx.Res, so *stepOut, where string
 		}
 	}
 
-	// C3: install without --force that meets a custom effective value in its target scope reports the conflict.
-	if o.Kind == "install" && !o.Force && target != "" {
+	// E1: a custom value that the scope obtains from an INCLUDED file and that is the one git uses in that scope's view
+	// (git config --includes <scope>: last value wins) is still the value git uses afterwards.  (A custom value written
+	// directly in the scope's file is C1's business.)  C4: the included files themselves are never edited.
+	for _, sf := range scopeFiles {
+		sc := sf[0]
+		for _, k := range lfsKeys {
+			ev := pre.effVals(sc, k)
+			if len(ev) == 0 {
+				continue
+			}
+			if pre.EffUnsure[sc] || post.EffUnsure[sc] {
+				so.counters["E1.not_decided_view_outside_the_include_model"]++
+				continue
+			}
+			last := ev[len(ev)-1]
+			if last.Origin == sf[1] || last.V == "" || !isCustom(k, last.V) {
+				continue
+			}
+			so.hadProt = true
+			if sc == target && (o.Force || o.Kind == "uninstall") {
+				so.counters["E1.force_or_uninstall_exempt"]++
+				continue
+			}
+			so.evals++
+			so.counters["E1.included_custom_value_in_use_checked"]++
+			qv := post.effVals(sc, k)
+			if len(qv) == 0 || qv[len(qv)-1].V != last.V {
+				now := "(unset)"
+				if len(qv) > 0 {
+					now = fmt.Sprintf("%q (from %s)", qv[len(qv)-1].V, qv[len(qv)-1].Origin)
+				}
+				fp := "C20:config-replaced:" + opKind(o) + ":included-value"
+				if last.Origin == xdgGlobal {
+					// the value lives in the global scope's other file ($XDG_CONFIG_HOME/git/config): finding-4.md
+					fp = "C20:config-replaced:" + opKind(o) + ":xdg-global-value"
+				}
+				if sc != target {
+					fp += "-other-scope"
+				}
+				so.viol(fp, fmt.Sprintf("%s: `git lfs %s`: the value git uses for filter.lfs.%s in the %s view was %q (written in %s, not in the scope's own file) and is now %s, without --force",
+					where, o.Name, k, sc, last.V, last.Origin, now), detail(map[string]interface{}{"scope": sc, "key": k}))
+			}
+		}
+	}
+	for _, p := range sortedIncKeys(pre.Inc) {
+		ie := pre.Inc[p]
+		if o.Force && target != "" && pre.IncOf[target][p] {
+			so.counters["C4.force_exempt"]++
+			continue
+		}
+		so.evals++
+		so.counters["C4.included_files_checked"]++
+		if q, ok := post.Inc[p]; !ok || q.Kind != ie.Kind || q.Mode != ie.Mode || q.Sha != ie.Sha {
+			after := "(removed)"
+			if ok {
+				after = fmt.Sprint(q.describe())
+			}
+			so.viol("C20:config-included-file-changed:"+opKind(o), fmt.Sprintf("%s: `git lfs %s` changed the included configuration file %s\n before: %v\n after:  %s", where, o.Name, p, ie.describe(), after),
+				detail(map[string]interface{}{"path": p}))
+		}
+	}
+
+	// C3: install without --force that meets a custom value in use in its target scope (the last value of the key in
+	// the scope's view, include.* followed) reports the conflict.
+	if o.Kind == "install" && !o.Force && target != "" && !pre.EffUnsure[target] {
 		var conflicts []string
 		for _, k := range lfsKeys {
-			pv := pre.lfsVals(target, k)
-			if len(pv) > 0 && pv[len(pv)-1] != "" && isCustom(k, pv[len(pv)-1]) {
+			ev := pre.effVals(target, k)
+			if len(ev) > 0 && ev[len(ev)-1].V != "" && isCustom(k, ev[len(ev)-1].V) {
+				if ev[len(ev)-1].Origin == xdgGlobal {
+					// same root cause as the replacement reported under C20:config-replaced:install:xdg-global-value
+					// (the look-up names ~/.gitconfig only); counted, not reported twice
+					so.counters["C3.unreported_because_the_xdg_global_file_is_not_looked_at"]++
+					continue
+				}
 				conflicts = append(conflicts, k)
 			}
 		}
@@ -963,6 +1077,16 @@ func diffStates(a, b *state) (hooks []string, cfg []string) {
 			}
 		}
 	}
+	for _, p := range sortedIncKeys(a.Inc) {
+		if q, ok := b.Inc[p]; !ok || q.Sha != a.Inc[p].Sha || q.Mode != a.Inc[p].Mode || q.Kind != a.Inc[p].Kind {
+			cfg = append(cfg, "included-file:"+p)
+		}
+	}
+	for _, p := range sortedIncKeys(b.Inc) {
+		if _, ok := a.Inc[p]; !ok {
+			cfg = append(cfg, "included-file:"+p)
+		}
+	}
 	return
 }
 
@@ -992,7 +1116,9 @@ func outcomeOf(pre, post *state, o opDef, res gitx.Res) (string, bool) {
 	for _, c := range cd {
 		i := strings.IndexByte(c, ':')
 		k := c[i+1:]
-		if strings.HasPrefix(k, "filter.lfs.") {
+		if c[:i] == "included-file" {
+			cs["included-file-changed"] = true
+		} else if strings.HasPrefix(k, "filter.lfs.") {
 			cs[c[:i]+":lfs"] = true
 		} else {
 			cs[c[:i]+":"+k] = true
@@ -1040,6 +1166,12 @@ func (e *envT) step(w *gitx.World, pre *state, preSnap snap, o opDef, where stri
 	so.trans++
 	so.snap = capture(w.Root)
 	so.post = e.digest(so.snap)
+	xc := func(st *state) {
+		if e.xcheck != "" {
+			so.counters["X.include_model_vs_git_config."+e.reconcile(w, st, e.xcheck)]++
+		}
+	}
+	xc(so.post)
 	evaluate(pre, so.post, o, res, &so, where+" step `"+o.Name+"`")
 	so.outcome, so.changed = outcomeOf(pre, so.post, o, res)
 	if strings.Contains(res.Err, "panic:") || strings.Contains(res.Err, "goroutine ") {
@@ -1058,6 +1190,7 @@ func (e *envT) step(w *gitx.World, pre *state, preSnap snap, o opDef, where stri
 	so.trans++
 	snap2 := capture(w.Root)
 	post2 := e.digest(snap2)
+	xc(post2)
 	evaluate(so.post, post2, o, res2, &so, where+" step `"+o.Name+"` (repeated)")
 	if res.Code == 0 {
 		so.evals++
@@ -1098,6 +1231,7 @@ func (e *envT) step(w *gitx.World, pre *state, preSnap snap, o opDef, where stri
 	}
 	so.trans++
 	post3 := e.digest(capture(w.Root))
+	xc(post3)
 	evaluate(post2, post3, un, res3, &so, where+" step `"+o.Name+"`, then again, then `"+un.Name+"`")
 	so.evals++
 	so.counters["R1.roundtrip_checked"]++
@@ -1394,7 +1528,8 @@ func (e *envT) mkInitDV(desc, hp, dv string, hooks map[string]hookClass, cfg map
 // Parts (scenarios)
 
 type partDef struct {
-	Unpriv   bool // run git-lfs as unprivUID (scenario perms)
+	XCheck   string // scenarios cfgwhere-*: scope whose view (includes followed) is cross-checked against the real git after every transition
+	Unpriv   bool   // run git-lfs as unprivUID (scenario perms)
 	Name     string
 	Inits    []initState
 	Ops      []opDef
@@ -1934,7 +2069,8 @@ type bfsInfo struct {
 func (e *envT) bfs(p *partDef, deadline time.Time) (*vx.Stats, bfsInfo) {
 	t0 := time.Now()
 	e.unpriv = p.Unpriv
-	defer func() { e.unpriv = false }()
+	e.xcheck = p.XCheck
+	defer func() { e.unpriv, e.xcheck = false, "" }()
 	st := vx.NewStats()
 	info := bfsInfo{Scenario: p.Name, Initial: len(p.Inits), Ops: len(p.Ops), MaxDepth: p.MaxDepth}
 	seen := map[uint64]bool{}
@@ -2068,6 +2204,7 @@ func (e *envT) bfs(p *partDef, deadline time.Time) (*vx.Stats, bfsInfo) {
 func (e *envT) replayRun(p *partDef) vx.RunFunc {
 	return func(x *vx.X) vx.Result {
 		e.unpriv = p.Unpriv
+		e.xcheck = p.XCheck
 		i := x.In(len(p.Inits))
 		world := <-e.pool
 		defer func() { e.pool <- world }()
@@ -2232,6 +2369,7 @@ func TestVerifC20(t *testing.T) {
 		"'reports the conflict' = non-zero exit, or exit 0 with a message naming the hook conflict / the filter.lfs key. Demanded of install and update only (implicit hook installation by track etc. is only required not to overwrite).",
 		"install;install == install is demanded when the first install exits 0. After a failed install (config conflict) git-lfs applies the non-conflicting keys in Go map order, so the partial result is order dependent; the check records how often a second run changed the state (counter) but demands nothing there, because it could not be decided deterministically.",
 		"uninstall-after-install is demanded from states whose target scope has no filter.lfs.* value: all configuration of all scopes (except the added lfs.repositoryformatversion) and all user hook entries are restored and nothing new is left in a hooks directory; pre-existing LFS-generated or blank hooks may be removed (documented function of uninstall).",
+		"Included configuration (scenarios cfgwhere-*): the filter.lfs.<key> setting of a scope is the value git USES in that scope's view, i.e. what `git config --includes <scope flag> <key>` answers (last value met while reading the scope's file with include.* / includeIf.* followed); it may be written in an included file. Without --force that value must not change from a custom one to anything else (E1), install must report it (C3, same wording as for a direct value), and no operation edits an included file (C4; with --force on the scope that includes the file nothing is demanded of it, since --force is documented to reset the configuration). uninstall's documented removal of the filter.lfs section concerns the scope's own file only. A custom value written directly in a scope's file that is NOT the value in use because a later value of the same key (in the file or in a file included further down) is an LFS one is the multi-valued case of finding-2.md and keeps that fingerprint. Values that only live in another scope are not this scope's setting (documented meaning of --local/--worktree/--system/--file).",
 		"System scope is exercised through GIT_CONFIG_SYSTEM pointing at a scratch file (honoured by git 2.39 for `git config --system`); a real /etc/gitconfig is never touched.",
 		"States reached through a failed install with partial application depend on Go map iteration order inside git-lfs; every oracle is an invariant that holds for all orders, but state/transition counts may vary slightly between runs.",
 		"Trusted: git's own config parser (`git config --file --list -z`) for reading configuration values, cp-free Go snapshot/restore of the tiny worlds.",
@@ -2267,14 +2405,33 @@ func TestVerifC20(t *testing.T) {
 		full := e.thorough || sc == "global"
 		builders = append(builders, builder{"cfg-" + sc, func() partDef { return e.cfgPart(sc, full) }})
 	}
+	for _, sc := range []string{"global", "local", "wt2", "wtmain", "file", "system"} {
+		sc := sc
+		level := 0
+		if e.thorough {
+			level = 2
+		} else if sc == "global" {
+			level = 1
+		}
+		builders = append(builders, builder{"cfgwhere-" + sc, func() partDef { return e.cfgWherePart(sc, level) }})
+	}
 	builders = append(builders, builder{"mixed", func() partDef { return e.mixedPart(false) }})
 	if e.thorough {
 		builders = append(builders, builder{"mixed-deep", func() partDef { return e.mixedPart(true) }})
 	}
 	var parts []partDef
+	onlyEnv := os.Getenv("VERIF_ONLY")
 	for _, b := range builders {
-		if wantOnly == "" || wantOnly == b.name {
+		if (wantOnly == "" || wantOnly == b.name) && (onlyEnv == "" || c.Replay != "" || strings.HasPrefix(b.name, onlyEnv)) {
 			parts = append(parts, b.mk())
+		}
+	}
+	for i := range parts {
+		if parts[i].XCheck != "" {
+			if msg := e.verifyWhereInits(&parts[i]); msg != "" {
+				fmt.Printf("TOOL-ERROR property=C20 the harness's model of include resolution disagrees with git: %s\n", msg)
+				os.Exit(2)
+			}
 		}
 	}
 
@@ -2283,6 +2440,7 @@ func TestVerifC20(t *testing.T) {
 		"scenarios 'cfg-<scope>' for the 6 scopes {global, --local, --worktree in main and in a linked worktree, --file, --system via GIT_CONFIG_SYSTEM}: combinations of filter.lfs.{clean,smudge,process}∈{unset,current,historical,custom} x required∈{unset,true,false} plus multi-valued keys under {install, install --force, install --skip-smudge, uninstall} (--skip-repo) to closure; " +
 		"scenario 'hooktypes': the pre-existing hook varied by FILE TYPE and LINK STATE (bounds: hooktypes_entry_classes - symlink with relative/absolute target to a user script, to current/historical LFS content, to an empty file, to a directory; dangling symlink with relative/absolute target whose directory exists or not; chain of two links ending at a user script / LFS content / nothing; self-loop; empty directory; mode 000) for the first and a later hook slot and for all four x core.hooksPath {unset, relative, absolute outside the repository}, and the hooks directory itself varied {symlink to another directory with absolute/relative target, missing, dangling symlink} x {no hooks, current, user script, dangling symlink, symlink to user script}, under the hooks alphabet, to closure; " +
 		"scenario 'perms' (only when the harness is root and can drop privileges): git-lfs runs as uid 65534 on worlds owned by uid 65534 with a read-only hooks directory, unreadable / read-only / write-only hook files (user and LFS content), a symlink to an unreadable script and a symlink into an unsearchable directory, to closure; " +
+		"scenarios 'cfgwhere-<scope>' for the same 6 scopes: the pre-existing filter.lfs.* values varied by WHERE they live relative to the target scope's file (bounds: cfgwhere_layouts) - in a file pulled in by [include] path= (relative / absolute), by [includeIf \"gitdir:...\"] that matches / does not match, by an include nested in an include, by two includes, behind an include of a missing file; in an included file AND directly in both orders (include before the direct section: the direct values are the ones git uses; after it: the included ones are); in another scope's included file - x value vectors over {unset, current, historical, custom} per key, under {install, install --force, install --skip-smudge, uninstall} (--skip-repo) with the scope's flag, to closure; the harness's model of include resolution is compared with `git config --includes` for every initial state and after every transition; " +
 		"scenario 'mixed': hooks x multi-scope configurations under the cross-scope alphabet. Every install transition additionally runs the probes install;install and install;install;uninstall. " +
 		"A case (state, operation) is non-trivial when the state holds at least one user-owned hook entry or custom filter value, or the operation changed the state; distinct = distinct (canonical state key, operation)."
 	c.Bounds["tier"] = c.Tier
@@ -2301,6 +2459,15 @@ func TestVerifC20(t *testing.T) {
 	}
 	c.Bounds["hooktypes_entry_classes"] = typeNames
 	c.Bounds["hooktypes_hooks_directory_variants"] = dirVariants
+	c.Bounds["cfgwhere_layouts"] = map[string]interface{}{
+		"single_location": []string{"[include] relative path", "[include] absolute path", "[includeIf gitdir: matching] absolute path", "[includeIf gitdir: NOT matching] relative path",
+			"[include] -> file that [include]s (quick: global scope only)", "thorough: [includeIf gitdir: matching] relative path, [include] of a missing file, two [include]s in both orders"},
+		"two_locations":            []string{"[include] THEN direct section (direct values in use)", "direct section THEN [include] (included values in use)"},
+		"global_scope_second_file": "$XDG_CONFIG_HOME/git/config (read by --global before ~/.gitconfig): values there alone, and there AND directly in ~/.gitconfig",
+		"other_scope":              "another scope's file [include]s custom values while this scope has nothing / [include]s historical values (quick: global scope only)",
+		"value_vectors":            "quick: one vector per layout for 5 scopes, 5 vectors x 4 layouts + 7 (included, direct) pairs x 2 orders for the global scope; thorough: every vector with at most one key off a uniform background (24) + all-historical + all-custom for the relative include, 8 vectors for the other single-location layouts, 5 x 5 (included, direct) pairs x 2 orders, for every scope",
+		"includeIf":                "only gitdir: conditions with an absolute pattern ending in / whose answer is the same in both working trees of the world",
+	}
 	for _, p := range parts {
 		var ops []string
 		for _, o := range p.Ops {
